@@ -251,7 +251,7 @@ void rd::case_row() {
       case 35: { // truncating conversions between the two row types
         dimension_type sz = rnd(1, (int) B.N); bool ds = coin(); op = ds ? "sparse_from_dense_truncated" : "dense_from_sparse_truncated"; t << op << "(r" << b << "," << sz << ")"; tr(t.str());
         if (ds && !risky("truncds", 10)) { hx::count("row.skip.truncds"); op.clear(); break; }
-        if (ds) { bool beyond = B.m.lower_bound(sz) != B.m.end() && sz < B.N; Sparse_Row c(B.d, sz, sz + 1); r.m_swap(c); if (beyond) poison() = "truncating-dense-to-sparse"; }
+        if (ds) { bool beyond = B.m.lower_bound(sz) != B.m.end() && sz < B.N; Sparse_Row c(B.d, sz, sz + 1); r.m_swap(c); if (beyond) hx::count("truncating_dense_to_sparse_conversions") /* the defect this used to poison the case for is repaired in /repo */; }
         else { Dense_Row c(B.r, sz, sz + 1); r = c; }
         m = B.m; for (Model::iterator q = m.lower_bound(sz); q != m.end(); ) m.erase(q++); for (Model::iterator q = m.begin(); q != m.end(); ) if (q->second == 0) m.erase(q++); else ++q; A.N = sz; A.exact = false; dense_from_model(A); break; }
       case 36: { // ascii round trip, both row types
